@@ -94,6 +94,18 @@ def instances(rng, nodes, imps):
             out.append(("alias-batch", [_case(nodes, imps, "not", imp, False, sk, batch, sk, batch, anything=True),
                                         _case(nodes, imps, "not", imp, True, sk, batch, sk, batch)],
                         lambda v: v[0] == v[1]))
+    # alias with a batch that contains a module and one of its descendants (what the parent/sub-module de-duplication of
+    # the alias removes must not change the verdict: 'anything' stays 'except the subject itself', the whole batch)
+    rel = [(a, b) for a in nodes for b in nodes if a != b and gen.is_desc(b, a)]
+    if rel:
+        a, b = rng.choice(rel)
+        rbatch = [a, b] + ([rng.choice(nodes)] if rng.random() < 0.3 else [])
+        rng.shuffle(rbatch)
+        rbatch = list(dict.fromkeys(rbatch))
+        for imp in (True, False):
+            out.append(("alias-batch-related", [_case(nodes, imps, "not", imp, False, sk, rbatch, sk, rbatch, anything=True),
+                                                _case(nodes, imps, "not", imp, True, sk, rbatch, sk, rbatch)],
+                        lambda v: v[0] == v[1]))
     # monotonicity: add one import between unrelated modules
     cand = [(u, v) for u in nodes for v in nodes if not gen.related(u, v) and (u, v) not in imps]
     if cand:
